@@ -62,7 +62,8 @@ fn cmd_check(args: &[String]) -> i32 {
     let scale: f64 = std::env::var("VERIF_SCALE").ok().and_then(|s| s.parse().ok()).unwrap_or(1.0);
 
     // 1. regression files (replay tier): every committed history of every world of this property
-    let (replayed, reg_fail) = plan::replay_regress(&vdir, prop, &mut stats);
+    // (VERIF_NO_REGRESS is a debugging aid for sensitivity experiments with a single driver)
+    let (replayed, reg_fail) = if std::env::var("VERIF_NO_REGRESS").is_ok() { (0, None) } else { plan::replay_regress(&vdir, prop, &mut stats) };
     if failure.is_none() {
         failure = reg_fail;
     }
